@@ -812,7 +812,20 @@ func runC08(c *ctx) error {
 		if i%3 == 2 {
 			code = world.SHA512
 		}
-		dids = append(dids, world.NewDID(kp, tb, x.rng, code))
+		// distinct DIDs (two DIDs built from the same keys are the same DID, and "the other DID's state" would be no alteration)
+		for {
+			d := world.NewDID(kp, tb, x.rng, code)
+			dup := false
+			for _, o := range dids {
+				if o.Suffix == d.Suffix {
+					dup = true
+				}
+			}
+			if !dup {
+				dids = append(dids, d)
+				break
+			}
+		}
 	}
 	x.hashFunctions(kp, dids, c.tier)
 	x.longForm(dids, c.tier)
